@@ -20,6 +20,7 @@ import (
 	"fmt"
 	"os"
 	"path/filepath"
+	"regexp"
 	"sort"
 	"strings"
 	"time"
@@ -27,6 +28,8 @@ import (
 	dg "verifharness/designgen"
 	"verifharness/vh"
 )
+
+var incompatRe = regexp.MustCompile(`^invalid use of (\w+)(.*)$`)
 
 func obsToGobs(p *ProbeObs) string {
 	switch {
@@ -264,6 +267,8 @@ func main() {
 	}
 
 	var ref, grid, ctxl strings.Builder
+	suffixIndex := map[string]int{}
+	var suffixes []string
 	ctxSeen := map[string]bool{}
 	distinct := vh.Distinct{}
 	gridUnreached := 0
@@ -349,7 +354,27 @@ func main() {
 					res.Count("grid_probe_not_reached=" + it.Ctx)
 					continue
 				}
-				fmt.Fprintf(&grid, "(%d%%N, %d, %s, %s)\n", id, it.FnIndex, it.Ctx, obsToGobs(o.Probe))
+				msg := "None"
+				if o.Probe.IncompatMsg != "" {
+					if mm := incompatRe.FindStringSubmatch(o.Probe.IncompatMsg); mm != nil {
+						fi := 99999
+						for k, n := range names {
+							if n == mm[1] {
+								fi = k
+							}
+						}
+						si, seen := suffixIndex[mm[2]]
+						if !seen {
+							si = len(suffixes)
+							suffixIndex[mm[2]] = si
+							suffixes = append(suffixes, mm[2])
+						}
+						msg = fmt.Sprintf("(Some (%d, %d))", fi, si)
+					} else {
+						msg = "(Some (99999, 99999))"
+					}
+				}
+				fmt.Fprintf(&grid, "(%d%%N, %d, %s, %s, %s)\n", id, it.FnIndex, it.Ctx, obsToGobs(o.Probe), msg)
 				res.Count("grid:" + obsToGobs(o.Probe))
 				if !ctxSeen[it.Ctx] {
 					ctxSeen[it.Ctx] = true
@@ -441,6 +466,13 @@ func main() {
 	}
 	must(os.WriteFile(filepath.Join(*out, "cases_ref.txt"), []byte(ref.String()), 0o644))
 	must(os.WriteFile(filepath.Join(*out, "cases_grid.txt"), []byte(grid.String()), 0o644))
+	{
+		ss := make([]string, len(suffixes))
+		for i, x := range suffixes {
+			ss[i] = vh.CoqString(x)
+		}
+		must(os.WriteFile(filepath.Join(*out, "grid_suffixes.txt"), []byte(vh.CoqList(ss)), 0o644))
+	}
 	must(os.WriteFile(filepath.Join(*out, "cases_ctx.txt"), []byte(ctxl.String()), 0o644))
 	must(res.Write(filepath.Join(*out, "result.json")))
 	os.RemoveAll(rn.genroot)
